@@ -24,8 +24,9 @@ type c11Ev struct {
 	nas  int    // number of assumptions in force when the event happened
 	fr   string // call path of the frame the event happened in ("" = root function)
 	pre  map[types.Object]*c11V
-	key  string // loop: c11LoopKey
-	x    *c11V  // loop over a range: the value ranged over
+	key  string     // loop: c11LoopKey
+	x    *c11V      // loop over a range: the value ranged over; "index": the index term (lhs is the indexed value)
+	t    types.Type // "index": static type of the indexed operand
 }
 
 type c11St struct {
